@@ -1,4 +1,5 @@
 import WfModel.Version
+import WfModel.VersionTag
 import Driver.Util
 open Version Drv
 
@@ -25,6 +26,18 @@ def showOrd : Ordering → String
   | .lt => "lt"
   | .eq => "eq"
   | .gt => "gt"
+
+/-- a list of tags: `~` = the empty list, otherwise `;`-separated code-point lists -/
+def parseTags? (s : String) : Option (List (List Char)) :=
+  if s == "~" then some [] else (s.splitOn ";").mapM parseChars?
+
+def showOptChars : Option (List Char) → String
+  | some cs => "ok " ++ showChars cs
+  | none => "value-error"
+
+def showDRes : DRes → String
+  | .ok ch => showChange ch
+  | .outside => "outside"
 
 def range (lo hi : Nat) : List Nat := (List.range (hi - lo)).map (· + lo)
 
@@ -85,6 +98,53 @@ def step (_ : Unit) (line : String) : Unit × String :=
         let de := cps.filter fun n => isDecimal (Char.ofNat n)
         ((), "s:" ++ ",".intercalate (sp.map toString) ++ ";d:" ++ ",".intercalate (de.map toString))
       else ((), "bad-op")
+    | _, _ => ((), "bad-op")
+  | ["strip", t] =>
+    match parseChars? t with
+    | some cs => ((), showChars (stripRefs cs))
+    | none => ((), "bad-op")
+  | ["tagmeta", t] =>
+    match parseChars? t with
+    | some cs =>
+      match inferTagMetadata cs with
+      | some m => ((), "ok " ++ showChars m.normalized ++ "|" ++ showChars m.tagPrefix ++ "|" ++ showChars m.tagGlob)
+      | none => ((), "value-error")
+    | none => ((), "bad-op")
+  | ["rmprefix", t, p] =>
+    match parseChars? t, parseChars? p with
+    | some cs, some ps => ((), showOptChars (removeTagPrefix cs ps))
+    | _, _ => ((), "bad-op")
+  | ["extract", t, p] =>
+    match parseChars? t, parseChars? p with
+    | some cs, some ps => ((), showOptChars (extractSemver cs ps))
+    | _, _ => ((), "bad-op")
+  | ["suffix", t, p] =>
+    match parseChars? t, parseChars? p with
+    | some cs, some ps =>
+      match computeSuffixAndVersion cs ps with
+      | some (a, b) => ((), "ok " ++ showChars a ++ "|" ++ showChars b)
+      | none => ((), "value-error")
+    | _, _ => ((), "bad-op")
+  | ["prevtag", c, ts] =>
+    match parseChars? c, parseTags? ts with
+    | some cs, some tags =>
+      match previousTag cs tags with
+      | some r => ((), "some " ++ showChars r)
+      | none => ((), "none")
+    | _, _ => ((), "bad-op")
+  | ["tagchange", t, ts] =>
+    match parseChars? t, parseTags? ts with
+    | some cs, some tags =>
+      match tagChange cs tags, inferTagMetadata cs with
+      | some o, some m =>
+        match o.change with
+        | .outside => ((), "outside")
+        | .ok ch => ((), "ok " ++ showChars o.suffix ++ "|" ++ showChars o.semver ++ "|" ++ showChange ch ++ "|" ++ showChars m.tagGlob)
+      | _, _ => ((), "error")
+    | _, _ => ((), "bad-op")
+  | ["docker", v, f] =>
+    match parseChars? v, parseBool? f with
+    | some cs, some b => ((), ";".intercalate ((dockerTagParts cs b).map showChars))
     | _, _ => ((), "bad-op")
   | _ => ((), "bad-op")
 
